@@ -5,6 +5,7 @@ import (
 	"errors"
 	"fmt"
 	"math/rand"
+	"reflect"
 	"sort"
 	"strings"
 
@@ -197,6 +198,7 @@ func runC06(args []string) error {
 		}
 		nst := 3 + r.Intn(10)
 		var ends []uint64
+		boundary := false
 		for s := 0; s < nst; s++ {
 			switch k := r.Intn(12); {
 			case k < 2:
@@ -217,7 +219,10 @@ func runC06(args []string) error {
 					}
 				}
 				lg.ents, lg.marker = keep, m
-				cached.LogCompacted(7)
+				if err := notifyCompacted(cached, 7, m); err != nil {
+					return err
+				}
+				boundary = r.Intn(2) == 0
 				steps = append(steps, fmt.Sprintf("LCompact %d", m))
 				descr = append(descr, fmt.Sprintf("compact %d", m))
 			case k < 10:
@@ -227,6 +232,14 @@ func runC06(args []string) error {
 				} else { // mostly inside the log
 					f = lg.marker + 1 + uint64(r.Intn(int(applied-lg.marker)+2))
 				}
+				if boundary && lg.marker > 0 {
+					f = lg.marker - uint64(r.Intn(2)) // the compaction index itself and the one below
+					if f == 0 {
+						f = 1
+					}
+					hq.Inc("query at the compaction boundary")
+				}
+				boundary = false
 				la := applied + 1
 				// LogServer.Replicate computes the end of the range once per call and keeps it for all queries of the
 				// stream, while other streams (started later, with a larger applied index) shape the cache: an end that is
@@ -373,3 +386,22 @@ func runC06(args []string) error {
 }
 
 var _ = rand.Int
+
+// notifyCompacted delivers dragonboat's LogCompacted event to the cache.  Called by name so that the harness keeps
+// building when the notification carries the compaction index as well (both shapes mean: the log of the shard was
+// compacted up to and including index).
+func notifyCompacted(c any, shard, index uint64) error {
+	m := reflect.ValueOf(c).MethodByName("LogCompacted")
+	if !m.IsValid() {
+		return fmt.Errorf("harness: the log cache has no LogCompacted method")
+	}
+	switch m.Type().NumIn() {
+	case 1:
+		m.Call([]reflect.Value{reflect.ValueOf(shard)})
+	case 2:
+		m.Call([]reflect.Value{reflect.ValueOf(shard), reflect.ValueOf(index)})
+	default:
+		return fmt.Errorf("harness: unexpected LogCompacted signature %v", m.Type())
+	}
+	return nil
+}
